@@ -378,6 +378,8 @@ fn check_pack(p: &PackFx, g: &Global, c: &IndexCase) -> Verdict {
                 let first = w.idx.iter().zip(gi.iter()).position(|(a, b)| a != b).unwrap_or(w.idx.len().min(gi.len()));
                 return bad("idx-bytes", format!("thread_limit {tl}: index differs from git index-pack at byte {first} ({} vs {} bytes)", w.idx.len(), gi.len()));
             }
+        } else if first.as_ref().map(|f| f.pack == w.pack && f.idx == w.idx).unwrap_or(false) {
+            // byte-identical to the result of the first thread limit, which git has judged already
         } else {
             // the stored pack is complete now: git must derive the very same index from it, and the same object set as --fix-thin
             let pp = dir.join("check.pack");
@@ -418,7 +420,9 @@ fn check_pack(p: &PackFx, g: &Global, c: &IndexCase) -> Verdict {
             }
             g.objects_read_back.fetch_add(p.expected.len() as u64, Relaxed);
             // gitoxide's own full verification of what it wrote (checksums, CRC32s, every object decoded and re-hashed)
-            if let Err(e) = b.verify_integrity::<gix_pack::cache::Never, _>(
+            if first.is_some() {
+                // verified for the first thread limit; the results are compared byte for byte below
+            } else if let Err(e) = b.verify_integrity::<gix_pack::cache::Never, _>(
                 &mut Discard,
                 &INTERRUPT,
                 gix_pack::index::verify::integrity::Options { thread_limit: Some(1), ..Default::default() },
@@ -729,6 +733,114 @@ fn eval_hand(receiver: &Path, g: &Global, hs: &HandStats, c: &HandCase) -> Verdi
     ok(class)
 }
 
+
+// ---------------------------------------------------------------------------------------------- retry / pre-existing files
+
+#[derive(Serialize, Deserialize, Hash, Clone, Debug, PartialEq, Eq)]
+enum Scenario {
+    /// store the pack, delete the .idx (first attempt died between the two renames), store the same pack again
+    DeleteIdx,
+    /// a non-empty directory sits at the .idx path so the first attempt fails when moving the index; remove it and store again
+    IdxRenameBlocked,
+    /// these files of an earlier, complete store of the same pack are already present
+    Present { pack: bool, idx: bool, keep: bool },
+}
+
+#[derive(Serialize, Deserialize, Hash, Clone, Debug)]
+struct RetryCase {
+    pack: String,
+    scenario: Scenario,
+    thread_limit: u16,
+}
+
+fn eval_retry(fxs: &[PackFx], c: &RetryCase) -> Verdict {
+    let p = fxs.iter().find(|p| p.name == c.pack).unwrap_or_else(|| vkit::machinery!("unknown pack {}", c.pack));
+    let store = |dir: &Path| index_with(Api::Directory, IterMode::Verify, c.thread_limit, &p.bytes, p.base_objects.as_deref(), dir);
+    // reference: one clean store in an empty directory (judged by sub `index`)
+    let ref_dir = vkit::scratch::Dir::new("c10-retry-ref");
+    let w0 = match store(ref_dir.path()) {
+        Ok(w) => w,
+        Err(m) => return bad("rejected-valid", format!("clean store failed: {m}")),
+    };
+    if w0.idx.is_empty() || w0.pack.is_empty() {
+        return bad("files", "clean store produced no pack/index");
+    }
+    let hex = w0.data_hash.to_hex().to_string();
+    let names = [format!("pack-{hex}.pack"), format!("pack-{hex}.idx"), format!("pack-{hex}.keep")];
+    let dir = vkit::scratch::Dir::new("c10-retry");
+    let mut first = "";
+    match &c.scenario {
+        Scenario::DeleteIdx => {
+            if let Err(m) = store(dir.path()) {
+                return bad("rejected-valid", format!("first store failed: {m}"));
+            }
+            std::fs::remove_file(dir.join(&names[1])).unwrap_or_else(|e| vkit::machinery!("remove idx: {e}"));
+        }
+        Scenario::IdxRenameBlocked => {
+            let obstacle = dir.join(&names[1]);
+            std::fs::create_dir_all(&obstacle).and_then(|_| std::fs::write(obstacle.join("occupied"), b"x")).unwrap_or_else(|e| vkit::machinery!("obstacle: {e}"));
+            first = match store(dir.path()) {
+                Err(_) => "/first-attempt-failed",
+                Ok(_) => return bad("first-attempt", "storing succeeded although a directory occupies the index path"),
+            };
+            std::fs::remove_dir_all(&obstacle).unwrap_or_else(|e| vkit::machinery!("remove obstacle: {e}"));
+        }
+        Scenario::Present { pack, idx, keep } => {
+            for (n, want) in names.iter().zip([*pack, *idx, *keep]) {
+                if want {
+                    std::fs::copy(ref_dir.join(n), dir.join(n)).unwrap_or_else(|e| vkit::machinery!("copy {n}: {e}"));
+                }
+            }
+        }
+    }
+    let before = fx::list_dir(dir.path());
+    let w = match store(dir.path()) {
+        Ok(w) => w,
+        Err(m) if m.starts_with("MissingOutput") => {
+            return bad("missing-output", format!("store returned Ok but {m}; directory before {before:?}, after {:?}", fx::list_dir(dir.path())))
+        }
+        Err(m) => return bad("retry-rejected", format!("storing the pack again failed: {m}; directory before {before:?}")),
+    };
+    if w.data_hash != w0.data_hash {
+        return bad("files", format!("data hash {} differs from the clean store's {hex}", w.data_hash));
+    }
+    if w.idx != w0.idx {
+        return bad("idx-bytes", format!("index after the retry ({} bytes) differs from a clean store ({} bytes)", w.idx.len(), w0.idx.len()));
+    }
+    if w.pack != w0.pack {
+        return bad("pack-bytes", "pack after the retry differs from a clean store");
+    }
+    if let Some(gi) = &p.git_idx {
+        if &w.idx != gi {
+            return bad("idx-bytes", "index after the retry differs from git index-pack");
+        }
+    }
+    for n in &names[..2] {
+        if !w.listing.contains(n) {
+            return bad("files", format!("{n} is missing after the retry: {:?}", w.listing));
+        }
+    }
+    let b = match gix_pack::Bundle::at(dir.join(&names[1]), gix_hash::Kind::Sha1) {
+        Ok(b) => b,
+        Err(e) => return bad("unreadable", format!("cannot open the bundle after the retry: {e}")),
+    };
+    let mut buf = Vec::new();
+    let mut inflate = gix_features::zlib::Inflate::default();
+    for (id, (k, d)) in &p.expected {
+        match b.find(id, &mut buf, &mut inflate, &mut gix_pack::cache::Never) {
+            Ok(Some((data, _))) if data.kind == *k && data.data == d.as_slice() => {}
+            _ => return bad("readback", format!("object {id} does not read back after the retry")),
+        }
+    }
+    let sc = match &c.scenario {
+        Scenario::DeleteIdx => "delete-idx".to_string(),
+        Scenario::IdxRenameBlocked => "idx-rename-blocked".to_string(),
+        Scenario::Present { pack, idx, keep } => format!("present-{}{}{}", if *pack { "P" } else { "" }, if *idx { "I" } else { "" }, if *keep { "K" } else { "" }),
+    };
+    let kept = if w.listing.contains(&names[2]) { "keep" } else { "no-keep" };
+    ok(format!("retry/{sc}{first}/{kept}"))
+}
+
 // ---------------------------------------------------------------------------------------------- faults
 
 #[derive(Serialize, Deserialize, Hash, Clone, Debug)]
@@ -795,8 +907,12 @@ fn eval_fault(fxs: &[PackFx], g: &Global, c: &FaultCase) -> Verdict {
 }
 
 pub fn run(run: &'static Run) {
+    let t0 = std::time::Instant::now();
+    let laps = std::cell::RefCell::new(Vec::<String>::new());
+    let lap = |what: &str| laps.borrow_mut().push(format!("{what}@{:.1}s", t0.elapsed().as_secs_f64()));
     let fxs: &'static Vec<PackFx> = Box::leak(Box::new(build_packs(run)));
     let g: &'static Global = Box::leak(Box::new(Global::default()));
+    lap("fixtures");
     let tls: Vec<u16> = vec![1, 2, 3, 16];
     let n_full = fxs.iter().filter(|p| !p.thin).count();
     let n_thin = fxs.iter().filter(|p| p.thin).count();
@@ -809,6 +925,8 @@ pub fn run(run: &'static Run) {
          Faults (sub `truncate`, `flip`): EVERY proper prefix and every single-byte XOR with masks {} at EVERY offset of 3 small packs (no-delta full, delta full, thin), Mode::Verify, thread_limit {} => must return Err and leave no .pack/.idx/.keep. \
          Sub `thin-handmade`: hand-assembled thin packs [A blob][R ref-delta -> external X][O ofs-delta -> A | R][Z blob] (stored deflate blocks, exact lengths): X content length {} (length of the injected entry incl. the value where injected base and shrunk ref-delta header cancel out), \
          distance O->A as received in {{b-3,b-2,b-1,b,b+1,b-60}} for b in {{128,16512}} (ofs-delta header grows across the varint boundary vs controls) and O based on R; write_to_directory thread_limit {{1,2,4}} + write_to_directory_eagerly {{2}}; same oracle as thin packs plus git must read the 5 intended objects. \
+         Sub `retry`: per pack (quick: 4 smallest shapes, thorough: all) x thread_limit {{1,2,3}} x scenario {{store + delete .idx + store again; directory at the .idx path makes the first store fail at the index rename, remove it, store again; \
+         .pack only / .idx only / .keep only / .pack+.keep / all three files of a complete earlier store already present}}: the (second) store must succeed and leave .pack and .idx byte-identical to a clean store (and to git index-pack for full packs), all objects readable. \
          All written bundles must also pass Bundle::verify_integrity. non-trivial = pack with at least one delta / fault beyond the 12-byte header",
         if run.quick() { "all <= 2 commits + every fifth 3-commit one of the 26" } else { "all 26" },
         if run.quick() { " (quick: AsIs/Restore only through write_to_directory)" } else { "" },
@@ -847,6 +965,7 @@ pub fn run(run: &'static Run) {
         |c: &IndexCase| eval_index(fxs, g, c),
     );
 
+    lap("index");
     // hand-assembled thin packs: an existing ofs-delta is re-pointed across a varint-width boundary of its base distance
     let receiver: &'static PathBuf = Box::leak(Box::new({
         let dir = vkit::scratch::Dir::new("c10-receiver").keep();
@@ -891,6 +1010,43 @@ pub fn run(run: &'static Run) {
     run.require("hand-assembled packs made an ofs-delta header grow at 128 and at 16512", hs.crossed_128.load(Relaxed) > 0 && hs.crossed_16512.load(Relaxed) > 0);
     run.require("a hand-assembled pack with zero net shift and an ofs-delta based on the ref-delta was indexed", hs.net_zero_on_r.load(Relaxed) > 0);
 
+    lap("thin-handmade");
+    // retry / idempotent re-store with leftovers of an earlier attempt
+    let retry_packs: Vec<String> = if run.quick() {
+        let pick = |f: &dyn Fn(&PackFx) -> bool| fxs.iter().filter(|p| f(p)).min_by_key(|p| p.bytes.len()).map(|p| p.name.clone());
+        let mut v: Vec<String> = [pick(&|p| !p.thin && p.n_ofs == 0), pick(&|p| !p.thin && p.n_ofs >= 1), pick(&|p| p.thin && p.n_ref >= 1), pick(&|p| p.thin && p.n_ref == 0)].into_iter().flatten().collect();
+        v.dedup();
+        v
+    } else {
+        fxs.iter().map(|p| p.name.clone()).collect()
+    };
+    let scenarios = vec![
+        Scenario::DeleteIdx,
+        Scenario::IdxRenameBlocked,
+        Scenario::Present { pack: true, idx: false, keep: false },
+        Scenario::Present { pack: false, idx: true, keep: false },
+        Scenario::Present { pack: false, idx: false, keep: true },
+        Scenario::Present { pack: true, idx: false, keep: true },
+        Scenario::Present { pack: true, idx: true, keep: true },
+    ];
+    run.cov("retry_packs", retry_packs.len());
+    run.sub_with(
+        "retry",
+        vkit::Opts::default().chunk(128).watchdog(120.0).isolate(),
+        |emit| {
+            for p in &retry_packs {
+                for sc in &scenarios {
+                    for tl in [1u16, 2, 3] {
+                        emit(RetryCase { pack: p.clone(), scenario: sc.clone(), thread_limit: tl });
+                    }
+                }
+            }
+        },
+        |c: &RetryCase| eval_retry(fxs, c),
+    );
+    run.require("retry: a first attempt failed at the index rename", run.outcome_count("retry/idx-rename-blocked/first-attempt-failed/keep") > 0);
+
+    lap("retry");
     // fault targets: smallest of each shape
     let pick = |f: &dyn Fn(&PackFx) -> bool| fxs.iter().filter(|p| f(p)).min_by_key(|p| p.bytes.len()).map(|p| p.name.clone());
     let targets: Vec<String> = [pick(&|p| !p.thin && p.n_ofs == 0), pick(&|p| !p.thin && p.n_ofs >= 1), pick(&|p| p.thin && p.n_ref >= 1)].into_iter().flatten().collect();
@@ -930,6 +1086,8 @@ pub fn run(run: &'static Run) {
         },
         |c: &FaultCase| eval_fault(fxs, g, c),
     );
+    lap("faults");
+    run.cov("laps", laps.borrow().clone());
     let ld = |a: &AtomicU64| a.load(Relaxed);
     run.cov("thin_bases_inserted", ld(&g.thin_bases_inserted));
     run.cov("ofs_deltas_resolved", ld(&g.ofs_deltas_resolved));
